@@ -269,7 +269,7 @@ PROPS = {
             'controller side (unit TXNCTRL): declare_on_link, discharge_on_link, send_on_control_link, Transaction::discharge, OwnedTransaction::discharge, post_inner, TransactionRetirement::retire, DeliveryState::{accepted_or_else, declared_or_else} are under contract with the control link / sender / receiver as ghost-trace stand-ins and the Mutex around the control link erased; post_ref_inner and acquisition are not; the rollback-on-drop path is under contract in unit TXNDROP (rollback_on_drop, OwnedTransaction::drop; Transaction::drop uses `break` with a value and is not)',
             'the coordinator (unit TXNCOORD): on_declare, on_discharge, reject, handle_delivery_result under contract with the session requests and the receiver link as ghost-trace stand-ins', 'NOT DECIDED: the coordinator event loop (select!), abort of the remaining ids on Drop / when the controlling link goes away, several concurrent control links, freshness of a transaction id over the whole history (only among live ids)']),
     'C11': dict(
-        units=['SESSION', 'FRAMEENC', 'CONN', 'SENDSPLIT', 'CONNENG', 'ACCSESS', 'LINKATTACH', 'LINK', 'WIRING', 'ACCLINK', 'ACCDELEG', 'TXNDELEG', 'LCONNDELEG', 'SESSWIRING', 'SESSENG', 'TXN', 'CONNWIRING', 'CONVERSIONS', 'WIRELAYOUT', 'ENUMCODES', 'SETTERS', 'LINKRESUME'],
+        units=['SESSION', 'FRAMEENC', 'CONN', 'SENDSPLIT', 'CONNENG', 'ACCSESS', 'LINKATTACH', 'LINK', 'WIRING', 'ACCLINK', 'ACCDELEG', 'TXNDELEG', 'LCONNDELEG', 'SESSWIRING', 'SESSENG', 'TXN', 'CONNWIRING', 'CONVERSIONS', 'WIRELAYOUT', 'ENUMCODES', 'SETTERS', 'LINKRESUME', 'TXNDROP'],
         lemmas={'SENDSPLIT': ['lemma_link_expected'], 'FRAMEENC': ['lemma_expected_properties']}, kani=[], level='proof', title='Identifiers',
         assumptions=[ASYNC, ENGINE,
             'fewer than 2^32 link handles are live in one session (handle = slab key as u32)',
